@@ -118,6 +118,13 @@ fn nat(j: &Value) -> R<usize> {
     }
 }
 
+fn batch_nat(j: &Value) -> R<usize> {
+    match j.as_i64() {
+        Some(z) if z as usize == BATCH_MAX || z as usize == BATCH_MAX - 1 => Ok(z as usize),
+        _ => nat(j),
+    }
+}
+
 pub fn parse_val(j: &Value) -> R<Val> {
     if j.is_null() {
         return Ok(Val::None);
@@ -567,8 +574,8 @@ pub fn parse_step(j: &Value) -> R<Step> {
         Some(("map_values_w", [f])) => Step::MapValuesW(parse_efun(f)?),
         Some(("filter_values_w", [p])) => Step::FilterValuesW(parse_pfun(p)?),
         Some(("map_values_back", [f])) => Step::MapValuesBack(parse_efun(f)?),
-        Some(("map_batches", [n, b])) => Step::MapBatches(nat(n)?, parse_bfun(b)?),
-        Some(("map_values_batches", [n, b])) => Step::MapValuesBatches(nat(n)?, parse_bfun(b)?),
+        Some(("map_batches", [n, b])) => Step::MapBatches(batch_nat(n)?, parse_bfun(b)?),
+        Some(("map_values_batches", [n, b])) => Step::MapValuesBatches(batch_nat(n)?, parse_bfun(b)?),
         Some(("group_by_key", [])) => Step::GroupByKey,
         Some(("combine_values", [c])) => Step::CombineValues(parse_cid(c)?),
         Some(("combine_values_lifted", [c])) => Step::CombineValuesLifted(parse_cid(c)?),
@@ -1084,6 +1091,19 @@ fn filt_side<T: Row>(c: PCollection<T>, side: &[Val], q: &SPred) -> PCollection<
         spn(&q, s, &r.to_val())
     })
 }
+/// Batch sizes travel as JSON integers below 2^62: `BATCH_MAX` stands for `usize::MAX` ("the whole
+/// partition in one call"), `BATCH_MAX - 1` for `usize::MAX / 2`.  The model treats every size
+/// beyond a million alike (Decode.v clamps it): one chunk per partition.
+pub const BATCH_MAX: usize = 1 << 61;
+pub fn real_batch(n: usize) -> usize {
+    if n == BATCH_MAX {
+        usize::MAX
+    } else if n == BATCH_MAX - 1 {
+        usize::MAX / 2
+    } else {
+        n
+    }
+}
 /// a user-written composite transform: one map
 struct MapComposite(EFun);
 impl ironbeam::extensions::CompositeTransform<Val, Val> for MapComposite {
@@ -1263,11 +1283,11 @@ pub fn apply_step(p: &Pipeline, c: Coll, s: &Step) -> R<Coll> {
         }
         (Step::MapBatches(n, b), U(c)) => {
             let b = b.clone();
-            U(c.map_batches(*n, move |chunk: &[Val]| bf(&b, chunk)))
+            U(c.map_batches(real_batch(*n), move |chunk: &[Val]| bf(&b, chunk)))
         }
         (Step::MapValuesBatches(n, b), KV(c)) => {
             let b = b.clone();
-            KV(c.map_values_batches(*n, move |chunk: &[Val]| bf(&b, chunk)))
+            KV(c.map_values_batches(real_batch(*n), move |chunk: &[Val]| bf(&b, chunk)))
         }
         (Step::GroupByKey, KV(c)) => KG(c.group_by_key()),
         (Step::CombineValues(cid), KV(c)) => {
